@@ -182,7 +182,99 @@ fn pix_core(head: String, input: &[u8], o: Opts, ops: &[Op], fits: Vec<(bool, u3
     )
 }
 
+/// `pixsvg <hex> e m v k <ops> <w> => ok <W> <S> <svg hex> <centres> <pixels|->` : the SVG text (same setters on an
+/// `SvgBuilder`) next to the pixmap `ImageBuilder` makes of it at width `w`: class of the pixel containing each cell
+/// centre, and (small pixmaps) of every pixel — d = module colour, l = background colour, o = anything else
+/// (anti-aliased edge). The Lean side runs its IDEAL rasteriser (`Spec.Raster`) on the text.
+pub fn pixsvg_line(input: &[u8], o: Opts, ops: &[Op], w: u32) -> String {
+    let head = format!(
+        "pixsvg {} {} {} {} {} {} {} => ",
+        hex(input), opt(o.ecl), opt(o.mode), opt(o.version), opt(o.mask), svgops::toks(ops), w
+    );
+    let r = build(input, o);
+    let q = match &r {
+        Outcome::Ok(q) => q.clone(),
+        _ => return format!("{}nobuild {}", head, outcome_short(&r)),
+    };
+    let mut margin = 4usize;
+    let mut bg = [255u8, 255, 255, 255];
+    let mut fg = [0u8, 0, 0, 255];
+    for op in ops {
+        match op {
+            Op::Margin(m) => margin = *m,
+            Op::BackgroundColor(c) => bg = rgba_of(c),
+            Op::ModuleColor(c) => fg = rgba_of(c),
+            _ => {}
+        }
+    }
+    let (ops2, q2) = (ops.to_vec(), q.clone());
+    let res = std::panic::catch_unwind(move || {
+        let mut b = ImageBuilder::default();
+        svgops::apply(&mut b, &ops2);
+        b.fit_width(w);
+        (b.to_pixmap(&q2), svgops::svg_of(&ops2, &q2))
+    });
+    let (pm, svg) = match res {
+        Ok(x) => x,
+        Err(e) => return format!("{}trap {}", head, panic_msg(e)),
+    };
+    let (pw, ph) = (pm.width() as usize, pm.height() as usize);
+    let cells = q.size + 2 * margin;
+    let bg_px = if bg[3] == 0 { [0, 0, 0, 0] } else { bg };
+    let class = |x: usize, y: usize| -> char {
+        match pm.pixel(x as u32, y as u32) {
+            Some(p) => {
+                let c = p.demultiply();
+                let v = [c.red(), c.green(), c.blue(), c.alpha()];
+                if v == fg { 'd' } else if v == bg_px { 'l' } else { 'o' }
+            }
+            None => 'X',
+        }
+    };
+    let mut centres = String::new();
+    for r in 0..cells {
+        for c in 0..cells {
+            centres.push(class((((2 * c + 1) * pw) / (2 * cells)).min(pw.saturating_sub(1)), (((2 * r + 1) * ph) / (2 * cells)).min(ph.saturating_sub(1))));
+        }
+    }
+    let mut pixels = String::new();
+    if pw == ph && pw <= 130 {
+        for y in 0..ph {
+            for x in 0..pw {
+                pixels.push(class(x, y));
+            }
+        }
+    } else {
+        pixels.push('-');
+    }
+    format!("{}ok {} {} {} {} {}", head, pw, cells, hex(svg.as_bytes()), centres, pixels)
+}
+
 pub fn gen(out: &mut crate::gen::Out, rng: &mut Rng, thorough: bool) {
+    // the ideal rasteriser of the specification against the real one, on the real SVG text
+    {
+        let caps = crate::gen::caps();
+        for shape in 0..6usize {
+            for k in 0..(if thorough { 12 } else { 2 }) {
+                let v = if k % 2 == 0 { 0 } else { rng.below(if thorough { 10 } else { 3 }) };
+                let margin = *rng.pick(&[0usize, 1, 2, 4]);
+                let cells = (21 + 4 * v + 2 * margin) as u32;
+                let w = match k % 4 {
+                    0 => cells * 4,
+                    1 => cells * (4 + rng.below(5) as u32),
+                    2 => cells * 5 + 1 + rng.below(cells as usize - 1) as u32,
+                    _ => cells * 4 + rng.below(3 * cells as usize) as u32,
+                };
+                let (inp, o) = crate::gen::small_symbol(rng, &caps, v);
+                let mut ops = vec![Op::Margin(margin), Op::Shape(shape)];
+                if k % 3 == 2 {
+                    ops.push(Op::ModuleColor(ColorArg::Rgba([200, 30, 30, 255])));
+                    ops.push(Op::BackgroundColor(ColorArg::Rgba([240, 240, 10, 255])));
+                }
+                out.job(move || pixsvg_line(&inp, o, &ops, w));
+            }
+        }
+    }
     let caps = crate::gen::caps();
     let versions: Vec<usize> = if thorough { (0..40).collect() } else { vec![0, 1, 6] };
     let palettes: [([u8; 4], [u8; 4]); 4] = [
